@@ -305,9 +305,22 @@ struct SmallSetEngine : EngineBase {
         bool present = mfind(m, x) != nullptr;
         note(present ? (sz0 == 1 ? "present,last-one" : "present") : "absent");
         size_t r = 99;
-        E *e = make_hold(x);
-        window([&] { r = s.erase(*e); });
-        drop_hold();
+        const E *own = nullptr;
+        if (present && ((op.key + static_cast<int>(sz0)) & 1) == 0) {
+          // the key is a reference to the element of the set itself (as std::set allows): it dies during the call
+          MonScope mm;
+          const Val want = *mfind(m, x);
+          const Set &cs0 = s;
+          for (auto it = cs0.begin(); it != cs0.end(); ++it) if (EI<E>::val(*it).same(want)) { own = &*it; break; }
+        }
+        if (own) {
+          note("own-element");
+          window([&] { r = s.erase(*own); });
+        } else {
+          E *e = make_hold(x);
+          window([&] { r = s.erase(*e); });
+          drop_hold();
+        }
         if (threw) { violation("C04", "model.unexpected_exception", threw_what); return; }
         MonScope mm;
         size_t er = m.erase(x);
